@@ -10,6 +10,20 @@ CLAIMS = {
              note="Trusted: Lean kernel; hand-written model validated only by the correspondence run; POSIX pwrite/ftruncate/rename semantics; sort.Sort returns a sorted permutation.", tech=PROOF),
  "C20": dict(text="Lean theorems status_counts_trailing_failures, healthy_iff, one_success_restores, loop_exits_on_close, loop_break_spins (+13 more) over the model of server/view_health.go for all histories and thresholds; the loop skeleton and the comparisons of Healthy are regenerated from source by a go/ast extractor on every run and the obligations discharged by decide; counter model tied by differential execution through GET /health.",
              note="Trusted: Lean kernel; extractor tools/extracthealth; Ping honours its context; Go select semantics; timer jitter and prometheus gauges not modelled.", tech="Lean 4 proof + regenerated (go/ast) obligations + differential correspondence"),
+ "C04": dict(text="Lean theorems sign_only_if_entitled (for every choice among matching CA clients), not_entitled_refused, malformed_config_is_error, no_panic, list_exact, untrusted_headers_ignored, ssl_header_only_if_proxied, derived_addr_spec (+ more) over the model of config.GetKey, certificate authentication, the three views and realip; routes_guarded by decide over the route table regenerated from server.Handler() by a go/ast extractor on every run; tied by differential execution against the real handler (httptest) with recording fake tokens over generated configurations and requests.",
+             note="Trusted: Lean kernel; x509.Verify, PEM/URL decoding, net.ParseIP/IPNet.Contains supplied as data; policy/OPA (bearer) mode NOT modelled.", tech="Lean 4 proof + regenerated (go/ast) route table + differential correspondence"),
+ "C06": dict(text="Lean theorems wp_sound, audit_dominates_response (for every program of the flow language with the decidable guard property and every fault script), append_shape_sound, log_lines_complete (all interleavings of appenders); the control flow of serveSign, signCmd, PublishAudit and AppendTo is re-extracted from the Go source on every run and the obligations discharged by decide; tied dynamically by running the real handler with failing sinks (missing dir, directory, /dev/full, refusing AMQP) and 64 concurrent clients.",
+             note="Trusted: Lean kernel; extractor tools/extractflow; kernel O_APPEND atomicity; json.Marshal emits no newline; record field values compared dynamically only (record_names_what_was_used_full open).", tech="Lean 4 proof over regenerated (go/ast) control-flow terms + dynamic fault injection"),
+ "C07": dict(text="Lean theorems emitted_leaf_matches_key, emitted_pgp_matches_key, mismatch_is_error, mismatch_cases, builder_guard(_rejects), xmldsig_guard(_rejects), chain_leaf_first, sameKey_sound_partial / sameKey_curve_ignored (exact exception), signature_verifies for any SigScheme (36 theorems) over the model of SameKey, the certificate loaders, Certificate.Chain and the builder/xmldsig guards; each guard is exercised in isolation against the real code with real RSA/ECDSA keys and certificates in every file shape.",
+             note="Trusted: Lean kernel; ASN.1/PEM/PKCS#12/OpenPGP parsing; hardware/cloud tokens' Public(); sameKey ignores the curve (no shared affine point across curves assumed).", tech="Lean 4 proof over executable model + differential correspondence"),
+ "C09": dict(text="PARTIAL. Lean theorems merkle_split_independent, merkle_sections(_split_independent), merkle_finish (all block sizes, all write splits), checksum_even_splits_partial + refutation checksum_even_splits_full_false (known finding F20), failover_same_body, failover_after_406_uncompressed, encoding_choice over models of apk merkleHasher, the streaming PE checksum and remotecmd.doRequest; tied by differential execution at the real 1 MiB constant (lengths only) and against scripted HTTP servers; streaming readers of other formats covered by a fragmenting-reader oracle only.",
+             note="Trusted: Lean kernel; gzip/snappy codecs; http.Transport; readers under short reads for PE/CAB/PS/MSI/XAP/JAR have no Lean model.", tech="Lean 4 proof over executable model + differential correspondence"),
+ "C15": dict(text="Lean theorems success_iff_some_attempt_succeeded, attempts_bounded, permanent_at_once, cancel_prompt (+ cancel_during/before_call/in_backoff), delays (exact float32 back-off schedule), classification(_end_to_end), cookie_gate, pinned_key_never_stale, retries_nonpositive (21 theorems) over models of worker.doRetry, httperror.Temporary, the worker handler's classification and tokencache.GetKey; tied by driving the real client loop against a scripted fake worker at real back-off speed, the real handler and the real cache.",
+             note="Trusted: Lean kernel; http.Transport; real PKCS#11 errors not reachable with CGO off (stub type goes through the same switch).", tech="Lean 4 proof over executable model + differential correspondence"),
+ "C16": dict(text="PARTIAL. Lean theorems len_codec, len_minimal, tlv_roundtrip, unsorted_set_is_retag, attrs_digested_as_emitted/as_parsed, foreign_nonminimal_iff, required_attrs_once, adding_timestamp_preserves_signed, raw_nodes_verbatim, resynth_roundtrip_strict (20 theorems) over a DER/TLV model and relic's raw-capture and attribute-byte logic; tied by differential execution against encoding/asn1 and lib/pkcs7 (builder output and hand-built BER-ish variants, round trip + Verify).",
+             note="Trusted: Lean kernel; encoding/asn1 primitive types; crypto; multi-byte tags out of scope; resynth_nodes_need_der_full open.", tech="Lean 4 proof over executable model + differential correspondence"),
+ "C18": dict(text="PARTIAL. Lean theorems rb_insert_valid (balance + BST + permutation for relic's insert), rb_unfixed_degenerate, order_is_mscfb_partial, order_differs_mixed_case over the model of lib/redblack and lessDirEnt; every compound file relic writes in the run (harness-owned CFB writer x AddFile/DeleteFile/InsertMSISignature histories, incl. DIFAT growth) is parsed and validated by the Lean-defined validator Spec.Cfb.validB (chains in bounds/acyclic/disjoint, table and header counts, red-black directory trees, stream preservation); MSI tar digest = direct digest by implementation oracle. The comdoc writer itself is not modelled (add_preserves_valid_full open).",
+             note="Trusted: Lean kernel; Lean-defined validator run on real output bytes; writer not modelled; sortMsiFiles not modelled.", tech="Lean 4 proof (red-black) + Lean-defined validator on real outputs"),
  "C08": dict(text="PARTIAL. PE/COFF: Lean theorems pe_signed_file, pe_digest_ignores_signature_partial, pe_resign_replaces, pe_history (all signing histories on relic's own output) over the model of pedigest.go/pesign.go, built on a proved characterisation of the hashed stream (DigestPE_spec) and on C12; tied by differential execution incl. re-digest and locate on every generated file. Other formats: exercised only (see evidence).",
              note="Trusted: Lean kernel; hand-written PE model; e_lfanew >= 64 in theorems; success of the re-digest is checked dynamically, not proved (pe_digest_ignores_signature_full open).", tech=PROOF),
  "C03": dict(text="PARTIAL. PE/COFF: Lean theorems pe_payload_preserved, pe_refusal_is_clean, pe_patch_constructible (every input byte below the old end of image except the 8-byte directory entry is where it was; patch is constructible so C12 exactness applies); tied by differential execution and by a byte-level predicate evaluated on the real output. Other formats: exercised only.",
